@@ -9,6 +9,11 @@ import vlib
 NONFINITE = re.compile(r"(?<![\w.])(-?nan|-?inf|dblmax)(?![\w])")
 
 
+# the all-methods translation unit (tapkee.hpp) needs 2-3 min under ASan+UBSan at -O1 -g; at -O0 -g1 it builds ~3x faster
+# and needs far less memory (matrices are small: run time is irrelevant).  Sanitizers stay on.
+FLAGS = [f for f in vlib.HARNESS_FLAGS if f not in ("-O1", "-g")] + ["-O0", "-g1"]
+
+
 def header_flag():
     """the shared harness header is not part of vlib's cache key: fold its hash into the flags"""
     p = os.path.join(vlib.ROOT, "harness", "vspectral.hpp")
